@@ -17,6 +17,7 @@ E = _mon.events
 _SIM = None          # the Sim that currently owns the callbacks (or None)
 _installed = False
 LINE_EXTRA = None    # engine-specific recorder called on every counted LINE event (packrat)
+TRACE = None         # when a list: the file name of every counted LINE event is appended (planner only)
 
 INF = float('inf')
 
@@ -287,6 +288,8 @@ def _on_line(code, line):
         raise StepBudget()
     if LINE_EXTRA is not None:
         LINE_EXTRA()
+    if TRACE is not None:
+        TRACE.append(code.co_filename)
     if s >= sim.next_check:
         o = sim.policy.on_step(sim, t, code, line)
         if o is not None:
@@ -751,6 +754,36 @@ class InstrShot(OneShot):
 
     def describe(self):
         return {'policy': self.name, 'j': self.j, 'cap': self.cap}
+
+
+class RaceAt(Policy):
+    """Client 0 runs u steps (of its first operation, a construction), then client 1 runs ALL its operations
+    uninterrupted, then client 0 continues: one pre-emption at a uniformly chosen step.  The canonical
+    schedule for non-reentrant code: whatever client 0 had saved, counted or half-written at step u is
+    exposed to a complete foreign construction."""
+    name = 'race'
+
+    def __init__(self, u):
+        self.u = u
+        self.fired = False
+
+    def begin(self, sim):
+        sim.next_check = sim.step + self.u
+
+    def on_step(self, sim, t, code, line):
+        sim.next_check = INF
+        if self.fired or t.i != 0:
+            return None
+        self.fired = True
+        o = sim.others(t)
+        return o[0] if o else None
+
+    def on_end(self, sim, t):
+        o = [x for x in sim.tasks if not x.done]
+        return o[0] if o else None
+
+    def describe(self):
+        return {'policy': self.name, 'u': self.u}
 
 
 class FirstVisit(Policy):
